@@ -387,7 +387,7 @@ impl Future for Interp {
                     // 3..=5: payload types whose vtables (lift, lower, dealloc_lists) the real generator emitted
                     // (never with both ends in the guest: the canonical ABI only allows numeric element
                     // types for a copy within one component instance)
-                    let kinds = if me.prog.tracked { 6 } else { 2 };
+                    let kinds = if me.prog.tracked { 8 } else { 2 };
                     let kind = pick(kinds);
                     let objs = match kind {
                         0 => {
@@ -407,9 +407,17 @@ impl Future for Interp {
                             fault("generated_payload_vtable");
                             sobj::new_stream::<Vec<u8>>(1 + pick(3))
                         }
-                        _ => {
+                        5 => {
                             fault("generated_payload_vtable");
                             sobj::new_stream::<crate::genpay::Rec>(1 + pick(3))
+                        }
+                        6 => {
+                            fault("generated_payload_vtable");
+                            sobj::new_stream::<crate::genpay::Tup>(1 + pick(3))
+                        }
+                        _ => {
+                            fault("generated_payload_with_handle");
+                            sobj::new_stream::<crate::genpay::Thing>(1 + pick(3))
                         }
                     };
                     gtr!("i{}: new stream -> {:?}", me.iid, objs.iter().map(|o| o.name()).collect::<Vec<_>>());
@@ -417,7 +425,15 @@ impl Future for Interp {
                 }
                 A::NewFuture => {
                     let objs = if me.prog.tracked && pick(2) == 1 {
-                        match pick(4) {
+                        match pick(6) {
+                            4 => {
+                                fault("generated_payload_vtable");
+                                fobj::new_future::<crate::genpay::Tup>(1 + pick(2))
+                            }
+                            5 => {
+                                fault("generated_payload_with_handle");
+                                fobj::new_future::<crate::genpay::Thing>(1 + pick(2))
+                            }
                             0 => fobj::new_future::<Tracked>(1 + pick(2)),
                             1 => {
                                 fault("generated_payload_vtable");
@@ -427,10 +443,11 @@ impl Future for Interp {
                                 fault("generated_payload_vtable");
                                 fobj::new_future::<Vec<u8>>(1 + pick(2))
                             }
-                            _ => {
+                            3 => {
                                 fault("generated_payload_vtable");
                                 fobj::new_future::<crate::genpay::Rec>(1 + pick(2))
                             }
+                            _ => fobj::new_future::<Tracked>(1 + pick(2)),
                         }
                     } else {
                         let arr = if me.prog.guest_pairs { pick(3) } else { 1 + pick(2) };
